@@ -29,21 +29,21 @@ type Chunk struct {
 }
 
 type VP8Info struct {
-	KeyFrame      bool
-	Version       int
-	Show          bool
-	Part0Len      int
-	W, H          int
+	KeyFrame       bool
+	Version        int
+	Show           bool
+	Part0Len       int
+	W, H           int
 	XScale, YScale int
-	NumPartitions int
-	PartSizes     []int // sizes of partitions 1..n (last = remainder)
-	ColorSpace    int
-	Clamp         int
-	Segments      bool
-	FilterSimple  bool
-	FilterLevel   int
-	Sharpness     int
-	Err           string
+	NumPartitions  int
+	PartSizes      []int // sizes of partitions 1..n (last = remainder)
+	ColorSpace     int
+	Clamp          int
+	Segments       bool
+	FilterSimple   bool
+	FilterLevel    int
+	Sharpness      int
+	Err            string
 }
 
 type VP8LInfo struct {
@@ -88,21 +88,21 @@ func (f *Frame) BitH() int {
 }
 
 type File struct {
-	Size     int
-	RiffSize uint32
-	Chunks   []Chunk
-	HasVP8X  bool
-	Flags    byte
-	CanvasW  int
-	CanvasH  int
+	Size                    int
+	RiffSize                uint32
+	Chunks                  []Chunk
+	HasVP8X                 bool
+	Flags                   byte
+	CanvasW                 int
+	CanvasH                 int
 	HasICC, HasEXIF, HasXMP bool
-	ICC, EXIF, XMP []byte
-	HasANIM  bool
-	Loop     int
-	BG       uint32
-	Frames   []Frame
-	Animated bool // at least one ANMF chunk
-	Problems []string
+	ICC, EXIF, XMP          []byte
+	HasANIM                 bool
+	Loop                    int
+	BG                      uint32
+	Frames                  []Frame
+	Animated                bool // at least one ANMF chunk
+	Problems                []string
 }
 
 func (f *File) prob(format string, a ...any) {
